@@ -525,6 +525,29 @@ pub fn adopt(path: &str, content: &[u8], len: u64) {
     });
 }
 
+/// Media damage at rest: overwrite bytes of a tracked, closed file behind the code's back. The
+/// real file and the shadow view change together; nothing is logged (no call was made).
+pub fn damage(path: &str, off: u64, bytes: &[u8]) -> bool {
+    use std::os::unix::fs::FileExt;
+    let ok = bypass(|| std::fs::OpenOptions::new().write(true).open(path).and_then(|f| f.write_all_at(bytes, off)).is_ok());
+    if !ok {
+        return false;
+    }
+    with(|s| {
+        if let Some(fid) = s.paths.get(path.as_bytes()).copied() {
+            let f = &mut s.files[fid as usize];
+            let end = off as usize + bytes.len();
+            if f.cache.len() < end && (end as u64) <= f.len {
+                f.cache.resize(end, 0);
+            }
+            if f.cache.len() >= end {
+                f.cache[off as usize..end].copy_from_slice(bytes);
+            }
+        }
+    });
+    true
+}
+
 /// Compare the shadow view with the real file; false = the seam missed a write (harness error).
 pub fn shadow_matches(path: &str) -> Result<(), String> {
     let (cache, len) = match file_view(path) {
